@@ -244,6 +244,19 @@ def _bytes(mbits: float) -> int:
     return min(CLIP, int(round(float(mbits) * UNIT)))
 
 
+def _ratio(load_mbit: float, cap_mbit: float) -> Tuple[int, int]:
+    """load / capacity as an exact ratio of two integers below 2**27.  Loads are whole bytes; a capacity that is not
+    a whole number of bytes (e.g. a 0.06 Mbit link = 7864.32 bytes) is scaled by the smallest power of ten that
+    makes it whole, so that the band boundaries are where the simulator's own division puts them."""
+    n = float(load_mbit) * UNIT
+    d = float(cap_mbit) * UNIT
+    for k in (1, 10, 100, 1000, 10**4, 10**5, 10**6):
+        dk, nk = d * k, n * k
+        if abs(dk - round(dk)) < 1e-6 and abs(nk - round(nk)) < 1e-6 and round(dk) < CLIP:
+            return min(CLIP, int(round(nk))), max(1, int(round(dk)))
+    return min(CLIP, int(round(n))), max(1, min(CLIP, int(round(d))))
+
+
 # ---------------------------------------------------------------------------------------
 # declared observation tree (from the scenario's options)
 # ---------------------------------------------------------------------------------------
@@ -575,10 +588,10 @@ class ObsWalker:
                         src = src if port is None else src.get(port)
                         if src:
                             tr = src
-                speed = _bytes(nic.speed) if nic is not None else 1
+                i_n, i_d = _ratio(tr.get("inbound", 0.0), nic.speed) if nic is not None else (0, 1)
+                o_n, o_d = _ratio(tr.get("outbound", 0.0), nic.speed) if nic is not None else (0, 1)
                 t2 = truth_rec(exists=nic is not None, nodeOn=on, enabled=bool(nic.enabled) if nic is not None else False,
-                               inN=_bytes(tr.get("inbound", 0.0)), inD=max(1, speed),
-                               outN=_bytes(tr.get("outbound", 0.0)), outD=max(1, speed))
+                               inN=i_n, inD=i_d, outN=o_n, outD=o_d)
                 so = _sub(obs, "TRAFFIC", proto, *sub)
                 ss = _sub(space, "TRAFFIC", proto, *sub)
                 o2, z2, ok2 = _scalar(ss, so, {"inbound": ("inbound",), "outbound": ("outbound",)})
@@ -684,7 +697,8 @@ class ObsWalker:
         if link is None:
             truth = truth_rec(exists=False, nodeOn=True)
         else:
-            truth = truth_rec(exists=True, nodeOn=True, inN=_bytes(link.current_load), inD=max(1, _bytes(link.bandwidth)))
+            ln, ld = _ratio(link.current_load, link.bandwidth)
+            truth = truth_rec(exists=True, nodeOn=True, inN=ln, inD=ld)
         o, z, ok = _scalar(space, obs, {"load": ("PROTOCOLS", "ALL")})
         out.append((path, leaf_event("link", cfg_rec(), truth, o, z, ok)))
 
